@@ -45,7 +45,9 @@ package nsqd
 //@   ensures[at-most-3-writes] wCalls - old(wCalls) <= 3 && (result1 == nil ==> wCalls == old(wCalls) + 3)
 //@   ensures[only-to-w] wCur == w && !old(wForeign) ==> !wForeign
 //@   ensures[message-kept] m.Timestamp == old(m.Timestamp) && m.Attempts == old(m.Attempts) && m.Body == old(m.Body)
-//@   modifies wN, wOut, wCalls, wErrs, wLastErr, wForeign, elems(byte)
+//   (round 4, area A) the pool / Bytes records are free ghosts: WriteTo calls only library code, it leaves them alone (checked)
+//@   keeps r4APoolGets, r4APoolPuts, r4ABytesBuf
+//@   modifies wN, wOut, wCalls, wErrs, wLastErr, wForeign
 
 // Round trip. WriteTo puts toU64(Timestamp) / Attempts / ID / Body at offsets 0 / 8 / 10 / 26 of its output (clauses
 // timestamp, attempts, id, body above, over the ghost stream); decodeMessage reads the same four fields from the same offsets
